@@ -165,6 +165,17 @@ func init() {
 				c.Attr("~trailers-only", "status in the head, trailers by TrailerPrefix set before WriteHeader")
 			}
 		}
+		if outcome == 0 && (tp == vanguard.ProtocolGRPC || tp == vanguard.ProtocolGRPCWeb) && c.Choose("ok-status-with-details-bin", 2) == 1 {
+			// a server may end a SUCCESSFUL RPC with grpc-status: 0 and a grpc-status-details-bin
+			// trailer (a serialised google.rpc.Status saying OK): still a status key, not metadata
+			tr := call.RespTrailer.Clone()
+			if tr == nil {
+				tr = http.Header{}
+			}
+			tr["Grpc-Status-Details-Bin"] = []string{"EgRmaW5l"} // google.rpc.Status{message:"fine"}
+			call.RespTrailer = tr
+			c.Attr("~ok-status", "with grpc-status-details-bin")
+		}
 		headStatus := 0
 		if outcome == 1 && call.TrailersOnly && (tp == vanguard.ProtocolGRPC || tp == vanguard.ProtocolGRPCWeb) {
 			// the complete RPC status in the head of a response whose HTTP status is not 200
